@@ -408,6 +408,9 @@ class VmSequences(BoundedContract):
             os.dup2(fd, 2)
         except OSError:
             pass
+        # the whole chunk runs in forked children BEFORE the per-case loop (and outside its per-case time limit: on a loaded
+        # machine the chunk may take longer than one case is allowed to)
+        self._run_all()
         res = BoundedContract.run_custom(self, findings, seed)
         import hashlib
         for f in ("vm_mngr.c", "vm_mngr_py.c", "vm_mngr.h"):
@@ -460,7 +463,7 @@ class VmSequences(BoundedContract):
                         k, why = json.loads(line.decode())
                         results[k] = why
                         pos = k + 1
-                elif time.time() - last > 20:
+                elif time.time() - last > 60:
                     os.kill(pid, signal.SIGKILL)
                     hung = True
                     break
